@@ -18,6 +18,6 @@ git checkout -q -- .
 unset CARGO_TARGET_DIR
 cd /repo && git apply $D/patch.diff || { echo "PATCH DOES NOT APPLY TO /repo"; exit 2; }
 for c in "$@"; do
-  echo "== vcheck $c"; (cd /verif && bin/vcheck $c 2>&1 | grep -E "^(# |VIOLATION|OK|KNOWN)" | head -4)
+  echo "== vcheck $c"; (cd /verif && timeout 1200 bin/vcheck $c 2>&1 | grep -E "^(# |VIOLATION|OK|KNOWN)" | head -4)
 done
 git -C /repo checkout -q -- . ; git -C /repo status --short | head -3
